@@ -7,8 +7,10 @@ import (
 	"fmt"
 	"math/rand"
 	"net/url"
+	"reflect"
 	"regexp"
 	"servitor/ansi"
+	"servitor/client"
 	"servitor/jtp"
 	"servitor/pub"
 	"strings"
@@ -251,9 +253,51 @@ func init() {
 		op["canaryhits"] = s.canaryHits()
 		/* what went over the wire while the world was browsed (judged under C04) */
 		op["wire"] = logSummary(s.takeLog())
+		/* every document of the world fetched once more, after items were built from what the cache
+		   handed out: a fetch returns the document the server sent, also the second time */
+		op["refetch_differs"] = refetchAll(op, s, opid)
+		s.takeLog()
 		return res
 	}
 	groups["C02"] = group{gen: genPubWorld}
+}
+
+/* the URLs whose document, fetched again, is not the document their route serves */
+func refetchAll(op Op, s *simulator, opid string) []any {
+	differing := []any{}
+	seen := map[string]int{}
+	for _, rt := range L(op, "routes") {
+		m := Op(rt.(map[string]any))
+		seen[fmt.Sprintf("%d %s", I(m, "h"), S(m, "path"))]++
+	}
+	for _, rt := range L(op, "routes") {
+		m := Op(rt.(map[string]any))
+		h := I(m, "h")
+		if S(m, "fault") != "" || seen[fmt.Sprintf("%d %s", h, S(m, "path"))] != 1 || h < 0 || h >= len(s.hosts) {
+			continue
+		}
+		resp := substitute(S(m, "resp"), s.hosts, opid)
+		head, body, found := strings.Cut(resp, "\r\n\r\n")
+		if !found || !strings.HasPrefix(head, "HTTP/1.0 200") {
+			continue
+		}
+		var served map[string]any
+		if json.Unmarshal([]byte(body), &served) != nil {
+			continue
+		}
+		u, err := url.Parse("https://" + s.hosts[h] + substitute(S(m, "path"), s.hosts, opid))
+		if err != nil {
+			continue
+		}
+		got, _, err := client.FetchURL(u)
+		if err != nil {
+			continue
+		}
+		if !reflect.DeepEqual(map[string]any(got), served) {
+			differing = append(differing, u.String())
+		}
+	}
+	return differing
 }
 
 /* ---------- world generator: multi-host object graphs with impostors ---------- */
